@@ -10,3 +10,4 @@ func VerifEvStart()             {}
 func VerifEvStop() []string     { return nil }
 func VerifEvTid(t int)          {}
 func VerifEvNote(text string)   {}
+func VerifEvYield(permille int) {}
